@@ -211,7 +211,14 @@ def walk(ctx, inst, filter_spec, stats, heuristic_order=False, warm_start=False,
         if stats["nodes"] > 150000:
             raise TooBig()
         replay()
+        late_obs = None
         if rule is not None:
+            if not d.subscribers and len(path) >= 1:
+                # ... and watches the earliest start times from here on (an observer attached to a
+                # dispatcher that already holds the replayed prefix)
+                from job_shop_lib.dispatching.feature_observers import EarliestStartTimeObserver
+                late_obs = EarliestStartTimeObserver(d)
+                stats["late_observers"] = stats.get("late_observers", 0) + 1
             rule(d)       # the search looks at the rule's favourite first
         if clumsy:
             for op in d.raw_ready_operations():
@@ -225,6 +232,8 @@ def walk(ctx, inst, filter_spec, stats, heuristic_order=False, warm_start=False,
                         stats["leaf_mismatch"] = {"history": list(path), "accepted_wrong_machine": True}
                     break
         avail = [o.operation_id for o in d.available_operations()]
+        if late_obs is not None:
+            d.unsubscribe(late_obs)
         ready = r.ready()
         if len(avail) < len(ready):
             stats["pruned"] += len(ready) - len(avail)
@@ -266,6 +275,7 @@ def run_case(ctx, case):
                         draw_leaves=bool(case.get("draw_leaves")))
             ctx.count("refused_proposals_during_the_search", stats.get("refused", 0))
             ctx.count("observer_failures_during_the_search", stats.get("observer_failures", 0))
+            ctx.count("observers_attached_to_a_replayed_prefix", stats.get("late_observers", 0))
             ctx.count("complete_schedules_drawn_before_being_read", stats.get("drawn", 0))
             if case.get("heuristic_order"):
                 ctx.count("trees_walked_in_rule_order")
